@@ -129,7 +129,8 @@ func (e *Enc) libModel(fr *Frame, full string, callee *ssa.Function, args []Val,
 func (e *Enc) ifaceModel(fr *Frame, full string, recv Val, args []Val, resType types.Type, cur *pathState) (Val, bool) {
 	switch full {
 	case "context.Context.Done":
-		return Val{T: "(ctx_done_chan " + recv.T + ")", S: "Ref"}, e.declCtxDone()
+		e.declCtxDone()
+		return Val{T: "(ctx_done_chan " + recv.T + ")", S: "Ref", CtxOf: recv.T, Ext: true}, true
 	case "context.Context.Err":
 		done := e.ctxDone(recv.T, cur)
 		v := e.freshVal("ctxerr", resType, cur)
